@@ -89,4 +89,11 @@ theorem text_Cache_Cleanup_ok : Oidc.Shapes.Text_Cache_Cleanup := by unfold Oidc
 theorem text_Cache_evictOldest_ok : Oidc.Shapes.Text_Cache_evictOldest := by unfold Oidc.Shapes.Text_Cache_evictOldest; rfl
 theorem text_Cache_removeItem_ok : Oidc.Shapes.Text_Cache_removeItem := by unfold Oidc.Shapes.Text_Cache_removeItem; rfl
 
+
+/-! ## Program text of the helpers these theorems also rest on (constructors, accessors, token endpoint, configuration) -/
+theorem text_NewTokenCache_ok : Oidc.Shapes.Text_NewTokenCache := by unfold Oidc.Shapes.Text_NewTokenCache; rfl
+theorem text_cleanupReplayCache_ok : Oidc.Shapes.Text_cleanupReplayCache := by unfold Oidc.Shapes.Text_cleanupReplayCache; rfl
+theorem text_TraefikOidc_startTokenCleanup_ok : Oidc.Shapes.Text_TraefikOidc_startTokenCleanup := by unfold Oidc.Shapes.Text_TraefikOidc_startTokenCleanup; rfl
+theorem text_TraefikOidc_RevokeTokenWithProvider_ok : Oidc.Shapes.Text_TraefikOidc_RevokeTokenWithProvider := by unfold Oidc.Shapes.Text_TraefikOidc_RevokeTokenWithProvider; rfl
+
 end Oidc.Props.C14
